@@ -11,6 +11,401 @@ set_option linter.unusedSimpArgs false
 namespace KG.Lemmas.RemoteLimiter
 open KG.Model.RemoteLimiter KG.Spec.RemoteLimiter KG.Gen.C09
 
+
+/-! ## the exact clauses the CURRENT code satisfies (proof-internal), and: they imply the judge's one-sided clauses
+
+The judge (`KG.Spec.RemoteLimiter`) states the property from its text. The proofs go through these stronger, exact
+statements about the model — equalities with the code's formulas (`miFallback`, `clampAccept`, `tbFallbackQps`, the
+2 s resync period, `ExpectToken`'s batching, readiness as a function of the heartbeat history) — and
+`judgeStep_of_exact` shows that whatever satisfies them satisfies the judge. -/
+
+def expectedChoice (cfg : Cfg) (m : Mon) : Choice :=
+  match m.schema with
+  | none => .dflt
+  | some s =>
+    if cfg.rateLimiter = .remote ∧ s.strategy ≠ .empty ∧ s.strategy ≠ .loc ∧ cfg.hasCS = true
+       ∧ (m.shards ≠ 0 ∧ specReady m.hist = true) ∧ m.synced = true then .remote else .loc
+
+/-- the size the count wrappers' error fallback must produce -/
+def miFallback (obs localMax wmax : Int) : Int :=
+  let x := if obs < localMax then localMax else obs
+  if x > wmax then wmax else x
+
+def tbFallbackQps (mt : Meter) (localQps wqps : Int) : Int :=
+  if mt.rateNum < localQps * mt.rateDen then (if localQps > wqps then wqps else localQps)
+  else if mt.rateNum > wqps * mt.rateDen then wqps
+  else Int.tdiv mt.rateNum mt.rateDen
+
+def clampAccept (limit reserve wmax : Int) : Int :=
+  let l := if limit < reserve then reserve else limit
+  if l > wmax then wmax else l
+
+/-- judgements about one `SetLimit` on a max-in-flight count wrapper: its fields before, the reply, its limiter after -/
+def exactMISet (lastAcq wreserve wmax : Int) (punavail : Bool) (prlim : Option Lim) (localMi : Option Int)
+    (obsMax : Int) (r : Reply) (orlim : Option Lim) (ounavail : Bool) : List String :=
+  let fresh := !(decide (r.rt > 0) && decide (r.rt ≤ lastAcq))
+  if fresh && r.err == .none && r.accept then
+    (if ounavail = false ∧ orlim = some (.mi (clampAccept r.limit wreserve wmax)) then [] else ["c09.recover-not-applied"])
+  else if fresh && r.err == .other && !punavail then
+    match localMi with
+    | some l => if ounavail = true ∧ orlim = some (.mi (miFallback obsMax l wmax)) then [] else ["c09.error-fallback"]
+    | none => []
+  else if !fresh || r.err == .tooOld || (r.err == .other && punavail) then
+    (if orlim = prlim ∧ ounavail = punavail then [] else ["c09.stale-reply-applied"])
+  else []
+
+/-- the same for a token-bucket count wrapper -/
+def exactTBSet (wqps wburst : Int) (punavail : Bool) (prlim : Option Lim) (localTb : Option TB) (mt : Meter)
+    (r : Reply) (orlim : Option Lim) (ounavail : Bool) : List String :=
+  if r.err == .other && !punavail then
+    match localTb with
+    | some lt =>
+      let q := tbFallbackQps mt lt.qps wqps
+      let b := if q > wburst then wburst else q
+      if ounavail = true ∧ orlim = some (.tb q b) then [] else ["c09.error-fallback"]
+    | none => []
+  else if r.err == .none && r.accept && punavail then
+    (if ounavail = false ∧ orlim = some (.tb wqps wburst) then [] else ["c09.recover-not-applied"])
+  else
+    (if orlim = prlim then [] else ["c09.stale-reply-applied"])
+
+/-- judgements about one `SetLimit` from the previous observation `m.prev` to `o` -/
+def exactSetLimit (m : Mon) (r : Reply) (o : Obs) : List String :=
+  let p := m.prev
+  if p.wkind = 2 then
+    exactMISet p.lastAcq p.wreserve p.wmax p.unavail p.rlim (m.schema.bind (·.mi)) m.meter.maxInflight r o.rlim o.unavail
+  else if p.wkind = 3 then
+    exactTBSet p.wqps p.wburst p.unavail p.rlim (m.schema.bind (·.tb)) m.meter r o.rlim o.unavail
+  else []
+
+/-- clauses about the state reached: `m'` is the monitor after the operation, `o` the observation made then -/
+def exactPost (cfg : Cfg) (m' : Mon) (o : Obs) : List String :=
+  (if o.ready = (decide (m'.shards ≠ 0) && specReady m'.hist) then [] else ["c09.ready-hysteresis"]) ++
+  (if o.choice = expectedChoice cfg m' then [] else ["c09.fallback-choice"]) ++
+  (match m'.schema with
+   | none => []
+   | some s =>
+     (if o.choice = .loc ∧ o.lim ≠ some (limOf s) then ["c09.local-limit-not-enforced"] else []) ++
+     (if o.choice = .remote ∧ o.lim ≠ o.rlim then ["c09.fallback-choice"] else []) ++
+     (match o.rlim with
+      | none => if m'.synced then ["c09.remote-limiter-missing"] else []
+      | some l =>
+        if l.kind ≠ guessType s then ["c09.answer-type-mismatch"]
+        else if Lim.leb l m'.ob then [] else ["c09.cap-exceeds-global"]))
+
+/-- judgements about one round of the counter manager (`Op.tick`):
+* `c09.no-request-when-due` — **the instance keeps asking**: while a count wrapper exists, a round that comes more
+  than 2 s (unix seconds) after the last possible creation/answer of the counter must send a request for the flow
+  control — degraded or not, idle or not, reserve full or not — unless an event may be pending (a token-bucket
+  counter with a pending event and nothing to ask for consumes the event first and resyncs in the next round).
+  Without that request no accepted answer can ever arrive and a degraded limiter would stay degraded for ever.
+* the answer to the request goes through `SetLimit` like any acquire result (`exactSetLimit`: recovery, error
+  fallback, stale replies), with the round's time as its request time. -/
+def exactTick (m : Mon) (now : Int) (ans : Option TickAnswer) (o : Obs) : List String :=
+  let p := m.prev
+  (if (p.wkind = 2 ∨ (p.wkind = 3 ∧ m.mayEvent = false)) ∧ unixS now - m.contact > 2 ∧ o.req.isNone
+   then ["c09.no-request-when-due"] else []) ++
+  (match ans, o.req with
+   | some a, some hits =>
+     exactSetLimit m (tickReply a hits now) o
+   | _, _ => [])
+
+/-- **tokens ARE requested when there is demand and room**: a round of a token-bucket count wrapper with a pending
+    event (demand), whose reserve is not full once the tokens of the requests still unanswered are counted
+    (`room = reserve − tokens − owed > 0`), must ask for more than zero tokens — unless the room is below one batch
+    and the last answer is less than `batchAcquireMaxDuration` old. A wrapper whose `tokenInflight` has leaked (tokens
+    of FAILED requests never given back) stops asking for ever: the granted quota never takes effect again. -/
+def exactDemand (m : Mon) (now : Int) (o : Obs) : List String :=
+  let p := m.prev
+  let room := i32sub (i32sub p.wreserve p.tokens) m.owed
+  if p.wkind = 3 ∧ m.mustEvent = true ∧ room > 0 ∧ p.tokenBatch ≥ 1 ∧
+     (room ≥ p.tokenBatch ∨ now - p.lastAcq ≥ batchAcquireMaxDuration) ∧
+     reqPositive o.req = false
+  then ["c09.no-tokens-requested-on-demand"] else []
+
+/-- clauses about the transition made by `op` from the monitor `m` (before) to the observation `o` (after) -/
+def exactTrans (m : Mon) (op : Op) (o : Obs) : List String :=
+  match op with
+  | .tick now ans => exactTick m now ans o ++ exactDemand m now o
+  | .acquire id => judgeAcquire m id o
+  | .answer true item =>
+    if effective m op && decide (o.wkind = 1) then
+      match m.schema with
+      | some s => if o.rlim = some (limOfItem (boundByGlobalLimit s item)) then [] else ["c09.quota-not-applied"]
+      | none => []
+    else []
+  | .setLimit r => exactSetLimit m r o
+  | _ => []
+
+/-- the clauses broken by observation `o` made after `op` -/
+def exactStep (cfg : Cfg) (m : Mon) (op : Op) (o : Obs) : List String :=
+  exactPost cfg (m.next op o) o ++ exactTrans m op o
+
+
+theorem nil_of_ite_pos {c : Prop} [Decidable c] {x : String} (h : (if c then ([] : List String) else [x]) = []) : c := by
+  by_cases hc : c
+  · exact hc
+  · rw [if_neg hc] at h; cases h
+
+theorem nil_of_ite_neg {c : Prop} [Decidable c] {x : String} (h : (if c then [x] else ([] : List String)) = []) : ¬ c := by
+  intro hc; rw [if_pos hc] at h; cases h
+
+theorem everUp_of_ready : ∀ h, specReady h = true → everUp h = true
+  | [] => by simp [specReady]
+  | (true, t) :: rest => by simp [everUp]
+  | (false, t) :: rest => by
+    intro h
+    simp only [specReady, Bool.and_eq_true] at h
+    have := everUp_of_ready rest h.1
+    simp only [everUp, List.any_cons] at this ⊢
+    simp [this]
+
+theorem mustDown_not_ready {h : List (Bool × Int)} (hd : specMustDown h = true) : specReady h = false := by
+  cases hr : specReady h with
+  | false => rfl
+  | true =>
+    exfalso
+    have hu := everUp_of_ready h hr
+    simp only [specMustDown, hu, Bool.not_true, Bool.false_or] at hd
+    cases h with
+    | nil => simp at hd
+    | cons x rest =>
+      obtain ⟨ok, now⟩ := x
+      cases ok with
+      | true => simp at hd
+      | false =>
+        simp only [specReady, Bool.and_eq_true, Bool.not_eq_true', decide_eq_false_iff_not] at hr
+        simp only [decide_eq_true_eq] at hd
+        exact hr.2 hd
+
+theorem mustUp_ready {h : List (Bool × Int)} (hu : specMustUp h = true) : specReady h = true := by
+  cases h with
+  | nil => simp [specMustUp] at hu
+  | cons x rest =>
+    obtain ⟨ok, t⟩ := x
+    cases ok <;> simp [specMustUp, specReady] at hu ⊢
+
+theorem judgeMISet_of_exact {lastAcq wreserve wmax : Int} {punavail : Bool} {prlim : Option Lim} {localMi : Option Int}
+    {obsMax : Int} {r : Reply} {orlim : Option Lim} {ounavail : Bool}
+    (h : exactMISet lastAcq wreserve wmax punavail prlim localMi obsMax r orlim ounavail = []) :
+    judgeMISet lastAcq wmax punavail prlim localMi r orlim = [] := by
+  unfold exactMISet at h
+  unfold judgeMISet
+  simp only [] at h ⊢
+  by_cases c1 : ((!(decide (r.rt > 0) && decide (r.rt ≤ lastAcq))) && r.err == .none && r.accept) = true
+  · rw [if_pos c1] at h ⊢
+    have hh := nil_of_ite_pos h
+    rw [hh.2]
+    simp only []
+    rw [if_pos]
+    unfold clampAccept
+    simp only []
+    split <;> split <;> (try split) <;> omega
+  · rw [if_neg c1] at h ⊢
+    by_cases c2 : ((!(decide (r.rt > 0) && decide (r.rt ≤ lastAcq))) && r.err == .other && !punavail) = true
+    · rw [if_pos c2] at h ⊢
+      cases localMi with
+      | none => rfl
+      | some l =>
+        simp only [] at h ⊢
+        have hh := nil_of_ite_pos h
+        rw [hh.2]; rfl
+    · rw [if_neg c2] at h ⊢
+      by_cases c3 : ((!(!(decide (r.rt > 0) && decide (r.rt ≤ lastAcq)))) || r.err == .tooOld) = true
+      · rw [if_pos c3]
+        have c3' : ((!(!(decide (r.rt > 0) && decide (r.rt ≤ lastAcq)))) || r.err == .tooOld || (r.err == .other && punavail)) = true := by
+          rw [c3]; rfl
+        rw [if_pos c3'] at h
+        have hh := nil_of_ite_pos h
+        rw [if_pos hh.1]
+      · rw [if_neg c3]
+
+theorem judgeTBSet_of_exact {wqps wburst : Int} {punavail : Bool} {prlim : Option Lim} {localTb : Option TB} {mt : Meter}
+    {r : Reply} {orlim : Option Lim} {ounavail : Bool}
+    (h : exactTBSet wqps wburst punavail prlim localTb mt r orlim ounavail = []) :
+    judgeTBSet wqps wburst punavail prlim localTb r orlim = [] := by
+  unfold exactTBSet at h
+  unfold judgeTBSet
+  by_cases c1 : (r.err == .other && !punavail) = true
+  · rw [if_pos c1] at h ⊢
+    cases localTb with
+    | none => rfl
+    | some lt =>
+      simp only [] at h ⊢
+      have hh := nil_of_ite_pos h
+      rw [hh.2]; rfl
+  · rw [if_neg c1] at h ⊢
+    by_cases c2 : (r.err == .none && r.accept && punavail) = true
+    · rw [if_pos c2] at h ⊢
+      have hh := nil_of_ite_pos h
+      rw [hh.2]
+      simp
+    · rw [if_neg c2] at h ⊢
+      have hh := nil_of_ite_pos h
+      by_cases c3 : (r.err == .tooOld) = true
+      · rw [if_pos c3, if_pos hh]
+      · rw [if_neg c3]
+
+theorem judgeSetLimit_of_exact {m : Mon} {r : Reply} {o : Obs} (h : exactSetLimit m r o = []) :
+    judgeSetLimit m r o = [] := by
+  unfold exactSetLimit at h
+  unfold judgeSetLimit
+  simp only [] at h ⊢
+  by_cases c1 : m.prev.wkind = 2
+  · rw [if_pos c1] at h ⊢; exact judgeMISet_of_exact h
+  · rw [if_neg c1] at h ⊢
+    by_cases c2 : m.prev.wkind = 3
+    · rw [if_pos c2] at h ⊢; exact judgeTBSet_of_exact h
+    · rw [if_neg c2]
+
+theorem judgePost_of_exact {cfg : Cfg} {m' : Mon} {o : Obs} (h : exactPost cfg m' o = []) : judgePost cfg m' o = [] := by
+  unfold exactPost at h
+  simp only [List.append_eq_nil_iff] at h
+  obtain ⟨⟨h1, h2⟩, h3⟩ := h
+  have hready := nil_of_ite_pos h1
+  have hchoice := nil_of_ite_pos h2
+  unfold judgePost
+  have e1 : (if (m'.shards = 0 ∨ specMustDown m'.hist = true) ∧ o.ready = true then ["c09.ready-hysteresis"] else []) = [] := by
+    rw [if_neg]
+    intro ⟨hd, hr⟩
+    rw [hready] at hr
+    rcases hd with hd | hd
+    · simp [hd] at hr
+    · simp [mustDown_not_ready hd] at hr
+  have e2 : (if m'.shards ≠ 0 ∧ specMustUp m'.hist = true ∧ o.ready = false then ["c09.ready-hysteresis"] else []) = [] := by
+    rw [if_neg]
+    intro ⟨hs, hu, hr⟩
+    rw [hready] at hr
+    simp [hs, mustUp_ready hu] at hr
+  rw [e1, e2]
+  simp only [List.nil_append]
+  cases hsch : m'.schema with
+  | none =>
+    simp only []
+    rw [if_pos]
+    rw [hchoice]; simp [expectedChoice, hsch]
+  | some s =>
+    rw [hsch] at h3
+    simp only [] at h3 ⊢
+    simp only [List.append_eq_nil_iff] at h3
+    obtain ⟨⟨h4, h5⟩, h6⟩ := h3
+    have hexp : expectedChoice cfg m' = if cfg.rateLimiter = .remote ∧ s.strategy ≠ .empty ∧ s.strategy ≠ .loc ∧ cfg.hasCS = true
+        ∧ (m'.shards ≠ 0 ∧ specReady m'.hist = true) ∧ m'.synced = true then .remote else .loc := by
+      simp [expectedChoice, hsch]
+    have hmiss : o.rlim = none → m'.synced = false := by
+      intro hn
+      rw [hn] at h6
+      simp only [] at h6
+      cases hs : m'.synced with
+      | false => rfl
+      | true => rw [hs] at h6; simp at h6
+    have a1 : (if o.choice = .dflt then ["c09.fallback-choice"] else []) = [] := by
+      rw [if_neg]; rw [hchoice, hexp]; split <;> simp
+    have a2 : (if mustLocal cfg m' s o = true ∧ o.choice ≠ .loc then ["c09.fallback-choice"] else []) = [] := by
+      rw [if_neg]
+      intro ⟨hl, hc⟩
+      apply hc
+      rw [hchoice, hexp, if_neg]
+      intro ⟨c1, c2, c3, c4, ⟨c5, c6⟩, c7⟩
+      simp only [mustLocal, Bool.or_eq_true, decide_eq_true_eq, Bool.not_eq_true', Option.isNone_iff_eq_none] at hl
+      rcases hl with ((((((hl | hl) | hl) | hl) | hl) | hl) | hl) | hl
+      · exact hl c1
+      · exact c2 hl
+      · exact c3 hl
+      · rw [c4] at hl; cases hl
+      · exact c5 hl
+      · rw [mustDown_not_ready hl] at c6; cases c6
+      · rw [hready] at hl; simp [c5, c6] at hl
+      · rw [hmiss hl] at c7; cases c7
+    have a3 : (if mustRemote cfg m' s o = true ∧ o.choice ≠ .remote then ["c09.fallback-choice"] else []) = [] := by
+      rw [if_neg]
+      intro ⟨hr, hc⟩
+      apply hc
+      simp only [mustRemote, Bool.and_eq_true, decide_eq_true_eq, Bool.not_eq_true'] at hr
+      obtain ⟨⟨⟨⟨⟨⟨⟨⟨r1, r2⟩, r3⟩, r4⟩, r5⟩, r6⟩, r7⟩, _⟩, _⟩ := hr
+      rw [hchoice, hexp, if_pos ⟨r1, r2, r3, r4, ⟨r5, mustUp_ready r6⟩, r7⟩]
+    rw [a1, a2, a3, h4, h5]
+    simp only [List.nil_append]
+    cases hrl : o.rlim with
+    | none => rfl
+    | some l => rw [hrl] at h6; exact h6
+
+theorem i32sub_zero {x : Int} (h0 : 0 ≤ x) (h1 : x ≤ 2147483647) : i32sub x 0 = x := by
+  unfold i32sub toI32; omega
+
+theorem judgeDemand_of_exact {m : Mon} {now : Int} {o : Obs} (h : exactDemand m now o = []) : judgeDemand m o = [] := by
+  unfold exactDemand at h
+  unfold judgeDemand
+  simp only [] at h ⊢
+  have hn := nil_of_ite_neg h
+  rw [if_neg]
+  intro ⟨p1, p2, _, p4, p5, p6, p7, p8, p9⟩
+  apply hn
+  have hr : i32sub (i32sub m.prev.wreserve m.prev.tokens) m.owed = m.prev.wreserve := by
+    rw [p4, p5, i32sub_zero (by omega) p8, i32sub_zero (by omega) p8]
+  rw [hr]
+  exact ⟨p1, p2, by omega, p6, Or.inl p7, p9⟩
+
+theorem judgeTick_of_exact {m : Mon} {now : Int} {ans : Option TickAnswer} {o : Obs} (h : exactTick m now ans o = []) :
+    judgeTick m now ans o = [] := by
+  unfold exactTick at h
+  unfold judgeTick
+  simp only [List.append_eq_nil_iff] at h ⊢
+  obtain ⟨h1, h2⟩ := h
+  have hn := nil_of_ite_neg h1
+  refine ⟨?_, ?_⟩
+  · rw [if_neg]
+    intro ⟨a, b, c⟩
+    exact hn ⟨a, by unfold resyncBound at b; omega, c⟩
+  · cases ans with
+    | none => rfl
+    | some a =>
+      cases hreq : o.req with
+      | none => rfl
+      | some hits =>
+        rw [hreq] at h2
+        exact judgeSetLimit_of_exact h2
+
+theorem judgeTrans_of_exact {m : Mon} {op : Op} {o : Obs} (h : exactTrans m op o = []) : judgeTrans m op o = [] := by
+  cases op with
+  | tick now ans =>
+    simp only [exactTrans, judgeTrans, List.append_eq_nil_iff] at h ⊢
+    exact ⟨judgeTick_of_exact h.1, judgeDemand_of_exact h.2⟩
+  | acquire id => exact h
+  | setLimit r => exact judgeSetLimit_of_exact h
+  | answer named item =>
+    cases named with
+    | false => rfl
+    | true =>
+      simp only [exactTrans, judgeTrans] at h ⊢
+      split
+      · rename_i c
+        rw [if_pos c] at h
+        cases hs : m.schema with
+        | none => rfl
+        | some s =>
+          rw [hs] at h
+          simp only [] at h ⊢
+          have hh := nil_of_ite_pos h
+          split
+          · rename_i e; rw [e] at hh; rw [if_pos hh]
+          · rfl
+      · rfl
+  | schema _ => rfl
+  | shards _ => rfl
+  | sync _ _ _ _ => rfl
+  | hb _ _ _ => rfl
+  | reconcileCount => rfl
+  | meter _ => rfl
+  | event => rfl
+  | release _ => rfl
+
+/-- whatever satisfies the exact clauses of the current code satisfies the judge -/
+theorem judgeStep_of_exact {cfg : Cfg} {m : Mon} {op : Op} {o : Obs} (h : exactStep cfg m op o = []) :
+    judgeStep cfg m op o = [] := by
+  simp only [exactStep, judgeStep, List.append_eq_nil_iff] at h ⊢
+  exact ⟨judgePost_of_exact h.1, judgeTrans_of_exact h.2⟩
+
 /-! ## arithmetic -/
 
 theorem toU32_id {x : Int} (h0 : 0 ≤ x) (h1 : x ≤ maxInt32) : toU32 x = x := by
@@ -630,7 +1025,7 @@ theorem nonAccept_range {limit wmax : Int} (h : 0 ≤ wmax) :
 theorem miw_setLimit_inv {w : MIW} {ap : Item} {gs ob : Bound} {s : Schema} (hs : VS .mi s)
     (hg : GInv (.miw w) ap ob) (hle : ItemLe ap gs) (hgs : BoundOK gs) (obs : Int) (r : Reply) :
     ∃ w', w.setLimit s obs r = .ok w' ∧ GInv (.miw w') ap (obAfter ob gs w'.unavail) ∧ w'.inner.kind = .mi ∧
-      judgeMISet w.lastAcquireTime w.reserve w.max w.unavail (some w.inner) s.mi obs r (some w'.inner) w'.unavail = [] := by
+      exactMISet w.lastAcquireTime w.reserve w.max w.unavail (some w.inner) s.mi obs r (some w'.inner) w'.unavail = [] := by
   have hg0 := hg
   obtain ⟨A, sz, a1, a2, a3, a4, a5, a6, a7, a8⟩ := hg
   have hA := hle.mi A a1
@@ -644,7 +1039,7 @@ theorem miw_setLimit_inv {w : MIW} {ap : Item} {gs ob : Bound} {s : Schema} (hs 
   by_cases hst : r.rt > 0 ∧ r.rt ≤ w.lastAcquireTime
   · rw [if_pos hst]
     refine ⟨w, rfl, same, hkind, ?_⟩
-    simp [judgeMISet, hst.1, hst.2]
+    simp [exactMISet, hst.1, hst.2]
   · rw [if_neg hst]
     have hfresh : (!(decide (r.rt > 0) && decide (r.rt ≤ w.lastAcquireTime))) = true := by
       simp only [Bool.not_eq_true', Bool.and_eq_false_iff, decide_eq_false_iff_not]
@@ -654,12 +1049,12 @@ theorem miw_setLimit_inv {w : MIW} {ap : Item} {gs ob : Bound} {s : Schema} (hs 
     cases he : r.err with
     | tooOld =>
       refine ⟨w, rfl, same, hkind, ?_⟩
-      simp [judgeMISet, he]
+      simp [exactMISet, he]
     | other =>
       cases hu : w.unavail with
       | true =>
         refine ⟨w, by simp, same, hkind, ?_⟩
-        simp [judgeMISet, he, hu]
+        simp [exactMISet, he, hu]
       | false =>
         have hf := miFallback_range (obs := obs) h0 (by omega : 0 ≤ w.max)
         have hf1 : miFallback obs l w.max ≤ maxInt32 := by omega
@@ -670,7 +1065,7 @@ theorem miw_setLimit_inv {w : MIW} {ap : Item} {gs ob : Bound} {s : Schema} (hs 
           rw [this, toU32_id hf.1 hf1]
         · simp only [GInv, obAfter, if_true]
           exact ⟨A, _, a1, a2, a3, a4, rfl, hf.1, fun h => (by cases h), fun _ => by omega⟩
-        · simp [judgeMISet, he, hfresh]
+        · simp [exactMISet, he, hfresh]
     | none =>
       cases ha : r.accept with
       | true =>
@@ -684,7 +1079,7 @@ theorem miw_setLimit_inv {w : MIW} {ap : Item} {gs ob : Bound} {s : Schema} (hs 
           rw [this, toU32_id hc.1 hc1]
         · simp only [GInv, obAfter]
           exact ⟨A, _, a1, a2, a3, a4, rfl, hc.1, fun _ => by omega, fun h => (by cases h)⟩
-        · simp [judgeMISet, he, ha, hfresh]
+        · simp [exactMISet, he, ha, hfresh]
       | false =>
         have hn := nonAccept_range (limit := r.limit) (by omega : 0 ≤ w.max)
         refine ⟨{ w with overLimited := 1,
@@ -697,7 +1092,7 @@ theorem miw_setLimit_inv {w : MIW} {ap : Item} {gs ob : Bound} {s : Schema} (hs 
           refine ⟨A, _, a1, a2, a3, a4, rfl, hn.1, fun _ => by omega, fun hu => ?_⟩
           simp only [obAfter, hu, if_true]
           omega
-        · simp [judgeMISet, he, ha, hfresh]
+        · simp [exactMISet, he, ha, hfresh]
 
 /-- the degraded qps `tokenBucketWrapper.SetLimit` computes is the spec's and lies in `[0, m.qps]` -/
 theorem tbFallback_eq {mt : Meter} {ql wq : Int} (hd : 0 < mt.rateDen) (hq0 : 0 < ql) (hq1 : ql ≤ maxInt32)
@@ -729,7 +1124,7 @@ theorem tbFallback_eq {mt : Meter} {ql wq : Int} (hd : 0 < mt.rateDen) (hq0 : 0 
 theorem tbw_setLimit_inv {w : TBW} {ap : Item} {gs ob : Bound} {s : Schema} (hs : VS .tb s)
     (hg : GInv (.tbw w) ap ob) (hle : ItemLe ap gs) (hgs : BoundOK gs) (mt : Meter) (hd : 0 < mt.rateDen) (r : Reply) :
     ∃ w' b, w.setLimit s mt r = .ok (w', b) ∧ GInv (.tbw w') ap (obAfter ob gs w'.unavail) ∧ w'.inner.kind = .tb ∧
-      judgeTBSet w.qps w.burst w.unavail (some w.inner) s.tb mt r (some w'.inner) w'.unavail = [] := by
+      exactTBSet w.qps w.burst w.unavail (some w.inner) s.tb mt r (some w'.inner) w'.unavail = [] := by
   obtain ⟨t, q, u, a1, a2, a3, a4, a5, a6, a7, a8, a9⟩ := hg
   have ht := hle.tb t a2
   have hq1 : t.qps ≤ maxInt32 := by have := hgs.q1; omega
@@ -757,13 +1152,13 @@ theorem tbw_setLimit_inv {w : TBW} {ap : Item} {gs ob : Bound} {s : Schema} (hs 
   | tooOld =>
     obtain ⟨k1, k2⟩ := keep (w.noteRequest r) (by simp) (by simp) (by simp) (by simp)
     refine ⟨_, _, rfl, k1, k2, ?_⟩
-    simp [judgeTBSet, he]
+    simp [exactTBSet, he]
   | other =>
     cases hu : w.unavail with
     | true =>
       obtain ⟨k1, k2⟩ := keep (w.noteRequest r) (by simp) (by simp) (by simp) (by simp)
       refine ⟨_, _, (by simp only [noteRequest_unavail, hu, Bool.not_true, Bool.not_false, Bool.false_eq_true, if_true, if_false]; rfl), k1, k2, ?_⟩
-      simp [judgeTBSet, he, hu]
+      simp [exactTBSet, he, hu]
     | false =>
       obtain ⟨hq, hq0', hq1'⟩ := tbFallback_eq (mt := mt) (ql := ql) (wq := w.qps) hd h0 (by omega)
         (by rw [a3]; exact ht.1) (by rw [a3]; exact hq1)
@@ -776,13 +1171,13 @@ theorem tbw_setLimit_inv {w : TBW} {ap : Item} {gs ob : Bound} {s : Schema} (hs 
           · omega
           · split <;> omega
       · simp [TBW.degrade, a5, Lim.kind]
-      · simp [judgeTBSet, he, TBW.degrade, a5, hq]
+      · simp [exactTBSet, he, TBW.degrade, a5, hq]
   | none =>
     cases ha : r.accept with
     | false =>
       obtain ⟨k1, k2⟩ := keep { w.noteRequest r with lastAcquireTime := r.rt } (by simp) (by simp) (by simp) (by simp)
       refine ⟨_, _, (by simp only [Bool.false_eq_true, if_false]; rfl), k1, k2, ?_⟩
-      simp [judgeTBSet, he, ha]
+      simp [exactTBSet, he, ha]
     | true =>
       cases hu : w.unavail with
       | false =>
@@ -790,7 +1185,7 @@ theorem tbw_setLimit_inv {w : TBW} {ap : Item} {gs ob : Bound} {s : Schema} (hs 
           (by simp [TBW.addTokens, TBW.recover, hu]) (by simp [TBW.addTokens, TBW.recover, hu])
           (by simp [TBW.addTokens, TBW.recover, hu]) (by simp [TBW.addTokens, TBW.recover, hu])
         refine ⟨_, _, (by simp only [if_true]; rfl), k1, k2, ?_⟩
-        simp [judgeTBSet, he, ha, hu, TBW.addTokens, TBW.recover]
+        simp [exactTBSet, he, ha, hu, TBW.addTokens, TBW.recover]
       | true =>
         refine ⟨_, _, (by simp only [if_true]; rfl), ?_, ?_, ?_⟩
         · simp only [TBW.addTokens, TBW.recover, noteRequest_unavail, hu, if_true, noteRequest_inner, noteRequest_qps,
@@ -798,7 +1193,7 @@ theorem tbw_setLimit_inv {w : TBW} {ap : Item} {gs ob : Bound} {s : Schema} (hs 
           exact ⟨t, _, _, a1, a2, a3, a4, rfl, by rw [a3]; exact ht.1, by rw [a4]; exact ht.2.2.1,
             fun _ => ⟨by rw [a3]; exact Int.le_refl _, by rw [a4]; exact Int.le_refl _⟩, fun h => (by cases h)⟩
         · simp [TBW.addTokens, TBW.recover, hu, a5, Lim.kind]
-        · simp [judgeTBSet, he, ha, hu, TBW.addTokens, TBW.recover, a5]
+        · simp [exactTBSet, he, ha, hu, TBW.addTokens, TBW.recover, a5]
 
 /-- `tokenBucketWrapper.SetLimit` touches `tokenInflight` only by giving the answered request's tokens back — on every
     path, the error path included (a failed request is no longer being acquired) -/
@@ -1163,12 +1558,12 @@ theorem load_spec {K : Kind} {cfg : Cfg} {st : State} {m : Mon} (hi : Inv K cfg 
         cases isReady st <;> simp
 
 theorem judgePost_ok {K : Kind} {cfg : Cfg} {st : State} {m : Mon} (hi : Inv K cfg st m) :
-    judgePost cfg m (observe cfg st) = [] := by
+    exactPost cfg m (observe cfg st) = [] := by
   have hrd := isReady_spec hi.shards hi.hb
   have hld := load_spec hi
   have hc := hi.cache
   unfold CInv at hc
-  unfold judgePost
+  unfold exactPost
   rw [observe_ready, hrd, observe_choice, hld]
   simp only [if_true, List.nil_append]
   cases hsch : m.schema with
@@ -1260,7 +1655,7 @@ theorem inv_of_frame {K : Kind} {cfg : Cfg} {st st' : State} {m m' : Mon} (hi : 
 /-- the conclusion of every per-operation lemma -/
 def StepOK (K : Kind) (cfg : Cfg) (st : State) (m : Mon) (op : Op) : Prop :=
   ∃ st', step st op = .ok st' ∧ Inv K cfg st' (m.next op (observe cfg st')) ∧
-    judgeTrans m op (observe cfg st') = []
+    exactTrans m op (observe cfg st') = []
 
 theorem step_shards {K : Kind} {cfg : Cfg} {st : State} {m : Mon} (hi : Inv K cfg st m) (n : Nat) :
     StepOK K cfg st m (.shards n) := by
@@ -1624,7 +2019,7 @@ theorem step_noop {K : Kind} {cfg : Cfg} {st : State} {m : Mon} (hi : Inv K cfg 
       (m.next op (observe cfg st)).hist = m.hist ∧
       (m.next op (observe cfg st)).synced = (m.synced || effective m op) ∧
       (m.next op (observe cfg st)).leader = m.leader)
-    (hj : judgeTrans m op (observe cfg st) = [])
+    (hj : exactTrans m op (observe cfg st) = [])
     (hq : quietOp op = true := by rfl)
     (hsl : ∀ r, op = .setLimit r → (observe cfg st).wkind = 0 := by intro r h; cases h) : StepOK K cfg st m op := by
   have hrb : rebuilds m op = false := by simp [rebuilds, heff]
@@ -2086,7 +2481,7 @@ theorem step_answer {K : Kind} {cfg : Cfg} {st : State} {m : Mon} (hi : Inv K cf
     | some s0 => rw [hcache, hsch] at hc; exact hc.elim
     | none =>
       have heff : effective m (.answer true item) = false := by simp [effective, hsch]
-      exact step_noop hi _ (by simp [step, hcache]) heff rfl ⟨rfl, rfl, rfl, rfl, rfl⟩ (by simp [judgeTrans, heff])
+      exact step_noop hi _ (by simp [step, hcache]) heff rfl ⟨rfl, rfl, rfl, rfl, rfl⟩ (by simp [exactTrans, heff])
   | some c =>
     cases hsch : m.schema with
     | none => rw [hcache, hsch] at hc; exact hc.elim
@@ -2124,7 +2519,7 @@ theorem step_answer {K : Kind} {cfg : Cfg} {st : State} {m : Mon} (hi : Inv K cf
             · rw [h1] at e1
               exact flInv_sync _ hi hcache hsch heff rfl (by rw [hty]; exact VS_guess h2) (Or.inr ⟨item, rfl⟩) e1 e3 hcnt'
                 fl' hfl'
-          · simp only [judgeTrans, heff, Bool.true_and, hsch, observe_wkind, observe_rlim, hg, Option.map_some,
+          · simp only [exactTrans, heff, Bool.true_and, hsch, observe_wkind, observe_rlim, hg, Option.map_some,
               Option.getD_some]
             cases g' with
             | empty l => simp only [GInv] at e4; simp [GFC.wkind, GFC.inner, e4]
@@ -2132,11 +2527,11 @@ theorem step_answer {K : Kind} {cfg : Cfg} {st : State} {m : Mon} (hi : Inv K cf
             | tbw w => simp [GFC.wkind]
         · have heff : effective m (.answer true item) = false := by simp [effective, hsch, hty]
           exact step_noop hi _ (by simp [step, hcache, h1, hen, hty]) heff rfl ⟨rfl, rfl, rfl, rfl, rfl⟩
-            (by simp [judgeTrans, heff])
+            (by simp [exactTrans, heff])
       · have hen' : enableGlobal s = false := by simpa using hen
         have heff : effective m (.answer true item) = false := by simp [effective, hsch, hen']
         exact step_noop hi _ (by simp [step, hcache, h1, hen']) heff rfl ⟨rfl, rfl, rfl, rfl, rfl⟩
-          (by simp [judgeTrans, heff])
+          (by simp [exactTrans, heff])
 
 theorem observe_miw {cfg : Cfg} {st : State} {w : MIW} (h : gfcOf st = some (.miw w)) :
     (observe cfg st).wkind = 2 ∧ (observe cfg st).lastAcq = w.lastAcquireTime ∧ (observe cfg st).wreserve = w.reserve ∧
@@ -2249,7 +2644,7 @@ theorem step_setLimit {K : Kind} {cfg : Cfg} {st : State} {m : Mon} (hi : Inv K 
   have noop : gfcOf st = none → step st (.setLimit r) = .ok st → StepOK K cfg st m (.setLimit r) := by
     intro hg hs
     refine step_noop hi _ hs rfl rfl ⟨rfl, rfl, rfl, rfl, rfl⟩ ?_ rfl (fun _ _ => observe_wkind0 hg)
-    simp [judgeTrans, judgeSetLimit, hi.prev, observe_wkind0 hg]
+    simp [exactTrans, exactSetLimit, hi.prev, observe_wkind0 hg]
   cases hcache : st.cache with
   | none => exact noop (by simp [gfcOf, hcache]) (by simp [step, hcache])
   | some c =>
@@ -2269,7 +2664,7 @@ theorem step_setLimit {K : Kind} {cfg : Cfg} {st : State} {m : Mon} (hi : Inv K 
             (GInv_obAfter _ q6) q7 q3 rfl (fun w' h => (by cases h)), ?_⟩
           · simp [step, hcache, hrm, q3, gfcSetLimit]
           · have : (observe cfg st).wkind = 1 := by rw [observe_wkind, hgf]; rfl
-            simp [judgeTrans, judgeSetLimit, hi.prev, this]
+            simp [exactTrans, exactSetLimit, hi.prev, this]
         | miw w =>
           have hKm : K = .mi := by
             obtain ⟨A, sz, a1, a2, a3, a4, a5, _⟩ := q6
@@ -2283,7 +2678,7 @@ theorem step_setLimit {K : Kind} {cfg : Cfg} {st : State} {m : Mon} (hi : Inv K 
           · have hg' : gfcOf { st with cache := some { c with remote := some { rm with fc := some (.miw w') } }, lastRet := false }
                 = some (.miw w') := by simp [gfcOf]
             obtain ⟨o1, o2, o3, o4, o5, o6⟩ := observe_miw (cfg := cfg) hg'
-            simp only [judgeTrans, judgeSetLimit, hi.prev, p1, if_true, p2, p3, p4, p5, p6, hsch, Option.bind_some,
+            simp only [exactTrans, exactSetLimit, hi.prev, p1, if_true, p2, p3, p4, p5, p6, hsch, Option.bind_some,
               hi.meter, o5, o6]
             exact e4
         | tbw w =>
@@ -2299,7 +2694,7 @@ theorem step_setLimit {K : Kind} {cfg : Cfg} {st : State} {m : Mon} (hi : Inv K 
           · have hg' : gfcOf { st with cache := some { c with remote := some { rm with fc := some (.tbw w') } }, lastRet := b }
                 = some (.tbw w') := by simp [gfcOf]
             obtain ⟨o1, o2, o3, o4, o5⟩ := observe_tbw (cfg := cfg) hg'
-            simp only [judgeTrans, judgeSetLimit, hi.prev, p1, p2, p3, p4, p5, hsch, Option.bind_some,
+            simp only [exactTrans, exactSetLimit, hi.prev, p1, p2, p3, p4, p5, hsch, Option.bind_some,
               hi.meter, o4, o5]
             exact e4
 
@@ -2648,7 +3043,7 @@ theorem step_tick {K : Kind} {cfg : Cfg} {st : State} {m : Mon} (hi : Inv K cfg 
         · simp [Mon.next, hrb, hnb, stopsRemote, hprev, observe_wkind0 hg0]
         · simp [Mon.next, hmf]
         · simp [Mon.next, hrb, hnb, stopsRemote]
-    · simp [judgeTrans, judgeTick, judgeDemand, hprev, observe_wkind0 hg0, observe_req]
+    · simp [exactTrans, exactTick, exactDemand, hprev, observe_wkind0 hg0, observe_req]
   | some c =>
     have hc := hi.cache
     unfold CInv at hc
@@ -2662,9 +3057,9 @@ theorem step_tick {K : Kind} {cfg : Cfg} {st : State} {m : Mon} (hi : Inv K cfg 
           i32sub (i32sub w.reserve w.tokens) w.tokenInflight > 0 → w.tokenBatch ≥ 1 →
           (i32sub (i32sub w.reserve w.tokens) w.tokenInflight ≥ w.tokenBatch ∨
             now - w.lastAcquireTime ≥ batchAcquireMaxDuration) → reqPositive o.req = true) →
-        judgeDemand m now o = [] := by
+        exactDemand m now o = [] := by
       intro o ho
-      simp only [judgeDemand]
+      simp only [exactDemand]
       split
       · rename_i hp
         exfalso
@@ -2727,7 +3122,7 @@ theorem step_tick {K : Kind} {cfg : Cfg} {st : State} {m : Mon} (hi : Inv K cfg 
               tickQuiet_lastReq]
             split <;> exact this
           · intro hm; simp [Mon.next] at hm
-      · simp only [judgeTrans, judgeTick, hprev, observe_req]
+      · simp only [exactTrans, exactTick, hprev, observe_req]
         have : ¬ (((observe cfg st).wkind = 2 ∨ ((observe cfg st).wkind = 3 ∧ m.mayEvent = false)) ∧
             unixS now - m.contact > 2 ∧ (tickQuiet st c now).lastReq.isNone = true) := fun h => hA h.1 h.2.1
         rw [if_neg this]
@@ -2823,7 +3218,7 @@ theorem step_tick {K : Kind} {cfg : Cfg} {st : State} {m : Mon} (hi : Inv K cfg 
                     if_true, observe_req, tickSent_lastReq, Option.isSome_none]
                   rw [← hg', ← ho]
               · intro hm; simp [Mon.next] at hm
-          · simp only [judgeTrans, judgeTick, observe_req, tickSent_lastReq]
+          · simp only [exactTrans, exactTick, observe_req, tickSent_lastReq]
             rw [demand _ (by simpa [observe_req] using hpos)]
             simp
         | some a =>
@@ -2834,7 +3229,7 @@ theorem step_tick {K : Kind} {cfg : Cfg} {st : State} {m : Mon} (hi : Inv K cfg 
               (∀ w', g' = .tbw w' → ∃ w, g = .tbw w ∧
                 w'.tokenInflight = i32add (i32add w.tokenInflight hits) (toI32 (-hits))) →
               (∀ o : Obs, o.rlim = some g'.inner → o.unavail = g'.unavail → o.req = some hits →
-                judgeSetLimit m (tickReply a hits now) o = []) →
+                exactSetLimit m (tickReply a hits now) o = []) →
               StepOK K cfg st m (.tick now (some a)) := by
             intro g' b hset hg' hk' htk hj
             have hgf' : gfcOf (tickSent st c rm g' { event := false, lastSync := unixS now } now hits) = some g' := by
@@ -2886,7 +3281,7 @@ theorem step_tick {K : Kind} {cfg : Cfg} {st : State} {m : Mon} (hi : Inv K cfg 
                     if_true, observe_req, tickSent_lastReq, Option.isSome_some]
                   rw [htk', ho]
                 · intro hm; simp [Mon.next] at hm
-            · simp only [judgeTrans, judgeTick, observe_req, tickSent_lastReq, Option.isNone_some, Bool.false_eq_true,
+            · simp only [exactTrans, exactTick, observe_req, tickSent_lastReq, Option.isNone_some, Bool.false_eq_true,
                 and_false, if_false, List.nil_append]
               rw [demand _ (by simpa [observe_req] using hpos)]
               simp only [List.append_nil]
@@ -2909,7 +3304,7 @@ theorem step_tick {K : Kind} {cfg : Cfg} {st : State} {m : Mon} (hi : Inv K cfg 
             · exact e3
             · intro w0 h; cases h
             · intro o o1 o2 _
-              simp only [judgeSetLimit, hprev, p1, if_true, p2, p3, p4, p5, p6, hsch, Option.bind_some, hi.meter, o1, o2]
+              simp only [exactSetLimit, hprev, p1, if_true, p2, p3, p4, p5, p6, hsch, Option.bind_some, hi.meter, o1, o2]
               exact e4
           | tbw w =>
             have hKt : K = .tb := by
@@ -2930,7 +3325,7 @@ theorem step_tick {K : Kind} {cfg : Cfg} {st : State} {m : Mon} (hi : Inv K cfg 
               rw [tbw_setLimit_tokenInflight e1]
               simp [TBW.noteRequest, tickReply]
             · intro o o1 o2 _
-              simp only [judgeSetLimit, hprev, p1, p2, p3, p4, p5, hsch, Option.bind_some, hi.meter, o1, o2]
+              simp only [exactSetLimit, hprev, p1, p2, p3, p4, p5, hsch, Option.bind_some, hi.meter, o1, o2]
               exact e4
 
 /-! ## requests: acquire and release -/
@@ -3067,7 +3462,7 @@ theorem stepOK_request {K : Kind} {cfg : Cfg} {st : State} {m : Mon} {op : Op}
     (hcase : st'.cache = st.cache ∨ ∃ c c', st.cache = some c ∧ st'.cache = some c' ∧ c'.loc = c.loc ∧
       c'.remote = c.remote ∧ c'.cnt.lastSync = c.cnt.lastSync)
     (hfl : FlInv cfg st' (m.next op (observe cfg st')))
-    (hj : judgeTrans m op (observe cfg st') = []) : StepOK K cfg st m op := by
+    (hj : exactTrans m op (observe cfg st') = []) : StepOK K cfg st m op := by
   refine ⟨st', hs, ?_, hj⟩
   apply inv_of_side hi hcase
   · rcases hop with ⟨id, rfl⟩ | ⟨id, rfl⟩ <;> simp [Mon.next]
@@ -3208,7 +3603,7 @@ theorem step_acquire {K : Kind} {cfg : Cfg} {st : State} {m : Mon} (hi : Inv K c
       · simp [Mon.next, hrb, hnb, hsr]
       · simp only [Mon.next, hrb, hnb, hsr, Bool.or_self, Bool.false_eq_true, if_false, observe_admitted]
         rw [if_neg hnot]
-    · simp only [judgeTrans, judgeAcquire, observe_admitted]
+    · simp only [exactTrans, judgeAcquire, observe_admitted]
       rw [if_neg]
       intro h; exact hnot ⟨h.1, h.2.1⟩
   cases hheld : st.handles.any (·.id == id) with
@@ -3231,7 +3626,7 @@ theorem step_acquire {K : Kind} {cfg : Cfg} {st : State} {m : Mon} (hi : Inv K c
       · simp only [Mon.next, hrb, hnb, hsr, Bool.or_self, Bool.false_eq_true, if_false, observe_admitted, hnh, and_self,
           if_true, hch, hld]
         rfl
-    · simp only [judgeTrans, judgeAcquire, hch, hld]
+    · simp only [exactTrans, judgeAcquire, hch, hld]
       rw [if_neg]
       intro h; exact absurd h.2.2.1 (by decide)
   | some c =>
@@ -3274,7 +3669,7 @@ theorem step_acquire {K : Kind} {cfg : Cfg} {st : State} {m : Mon} (hi : Inv K c
         · simp only [Mon.next, hrb, hnb, hsr, Bool.or_self, Bool.false_eq_true, if_false, observe_admitted, hnh, and_self,
             if_true, hch, hld, hflag]
           rfl
-      · simp only [judgeTrans, judgeAcquire, hch, hld]
+      · simp only [exactTrans, judgeAcquire, hch, hld]
         rw [if_neg]
         intro h; exact absurd h.2.2.1 (by decide)
   | remote =>
@@ -3311,7 +3706,7 @@ theorem step_acquire {K : Kind} {cfg : Cfg} {st : State} {m : Mon} (hi : Inv K c
           exact ⟨g0, by simpa [gfcOf, hcache] using k2, k3, hce k4⟩
         · simp only [Mon.next, hrb, hnb, hsr, Bool.or_self, Bool.false_eq_true, if_false, observe_admitted]
           rw [if_neg]; intro h; cases h.1
-      · simp only [judgeTrans, judgeAcquire, observe_admitted]
+      · simp only [exactTrans, judgeAcquire, observe_admitted]
         rw [if_neg]; intro h; cases h.1
     | true =>
       have hflag : flagOf c { id := id, side := .rem, gen := c.fl.remOuter, inner := c.fl.remInner } = true := by
@@ -3342,7 +3737,7 @@ theorem step_acquire {K : Kind} {cfg : Cfg} {st : State} {m : Mon} (hi : Inv K c
             if_true, hch, hld, hflag]
           rfl
       · -- the in-flight clause: the bucket's count is the number of flagged handles, its size within the bound
-        simp only [judgeTrans, judgeAcquire]
+        simp only [exactTrans, judgeAcquire]
         rw [if_neg]
         intro ⟨_, _, _, hmi, hbad⟩
         apply hbad
@@ -3544,7 +3939,7 @@ theorem step_release {K : Kind} {cfg : Cfg} {st : State} {m : Mon} (hi : Inv K c
 /-- every operation allowed by `OpOK` runs without panic, preserves the invariant, and the judge accepts it -/
 theorem step_inv {K : Kind} {cfg : Cfg} {st : State} {m : Mon} {op : Op} (hi : Inv K cfg st m) (hop : OpOK K op) :
     ∃ st', step st op = .ok st' ∧ Inv K cfg st' (m.next op (observe cfg st')) ∧
-      judgeStep cfg m op (observe cfg st') = [] := by
+      exactStep cfg m op (observe cfg st') = [] := by
   have h : StepOK K cfg st m op := by
     cases op with
     | schema s => exact step_schema hi s hop
@@ -3561,7 +3956,7 @@ theorem step_inv {K : Kind} {cfg : Cfg} {st : State} {m : Mon} {op : Op} (hi : I
     | tick now ans => exact step_tick hi now ans
   obtain ⟨st', h1, h2, h3⟩ := h
   refine ⟨st', h1, h2, ?_⟩
-  simp only [judgeStep, judgePost_ok h2, h3, List.append_nil]
+  simp only [exactStep, judgePost_ok h2, h3, List.append_nil]
 
 /-- along every allowed operation list: no panic, one observation per operation, and the judge accepts them all -/
 theorem run_inv {K : Kind} {cfg : Cfg} : ∀ (ops : List Op) (st : State) (m : Mon), Inv K cfg st m →
@@ -3577,7 +3972,7 @@ theorem run_inv {K : Kind} {cfg : Cfg} : ∀ (ops : List Op) (st : State) (m : M
     obtain ⟨i1, i2, i3⟩ := ih st' _ h2 (fun o ho => hops o (List.mem_cons_of_mem _ ho))
     simp only [runFrom, h1]
     refine ⟨i1, by simp [i2], ?_⟩
-    simp only [judgeFrom, allGood, List.all_cons, h3, List.isEmpty_nil, Bool.true_and]
+    simp only [judgeFrom, allGood, List.all_cons, judgeStep_of_exact h3, List.isEmpty_nil, Bool.true_and]
     exact i3
 
 /-- the remote limiter of a reachable state is of the schema's type and within the monitor's bound -/
@@ -3739,7 +4134,7 @@ theorem inv_kind_none {K K' : Kind} {cfg : Cfg} {st : State} {m : Mon} (hi : Inv
 theorem step_schema_kind {K K' : Kind} {cfg : Cfg} {st : State} {m : Mon} (hi : Inv K cfg st m) (s : Schema)
     (hs : VS K' s) (hne : K ≠ K') (c : Cache) (hcache : st.cache = some c) :
     ∃ st', step st (.schema s) = .ok st' ∧ Inv K' cfg st' (m.next (.schema s) (observe cfg st')) ∧
-      judgeTrans m (.schema s) (observe cfg st') = [] := by
+      exactTrans m (.schema s) (observe cfg st') = [] := by
   have hc := hi.cache
   unfold CInv at hc
   cases hsch : m.schema with
@@ -3819,7 +4214,7 @@ theorem opOK_of' {K : Kind} {op : Op} (h : OpOK' op) (hn : ∀ s, op ≠ .schema
     the schema then in force), and the judge accepts it -/
 theorem step_inv' {K : Kind} {cfg : Cfg} {st : State} {m : Mon} {op : Op} (hi : Inv K cfg st m) (hop : OpOK' op) :
     ∃ st' K', step st op = .ok st' ∧ Inv K' cfg st' (m.next op (observe cfg st')) ∧
-      judgeStep cfg m op (observe cfg st') = [] := by
+      exactStep cfg m op (observe cfg st') = [] := by
   by_cases hsc : ∃ s, op = .schema s
   · obtain ⟨s, rfl⟩ := hsc
     obtain ⟨K', hs⟩ := hop
@@ -3833,7 +4228,7 @@ theorem step_inv' {K : Kind} {cfg : Cfg} {st : State} {m : Mon} {op : Op} (hi : 
         exact ⟨st', K', a, b, d⟩
       | some c =>
         obtain ⟨st', a, b, d⟩ := step_schema_kind hi s hs hk c hcache
-        exact ⟨st', K', a, b, by simp only [judgeStep, judgePost_ok b, d, List.append_nil]⟩
+        exact ⟨st', K', a, b, by simp only [exactStep, judgePost_ok b, d, List.append_nil]⟩
   · obtain ⟨st', a, b, d⟩ := step_inv hi (opOK_of' (K := K) hop (fun s e => hsc ⟨s, e⟩))
     exact ⟨st', K, a, b, d⟩
 
@@ -3850,7 +4245,7 @@ theorem run_inv' {cfg : Cfg} : ∀ (ops : List Op) (K : Kind) (st : State) (m : 
     obtain ⟨i1, i2, i3⟩ := ih K' st' _ h2 (fun o ho => hops o (List.mem_cons_of_mem _ ho))
     simp only [runFrom, h1]
     refine ⟨i1, by simp [i2], ?_⟩
-    simp only [judgeFrom, allGood, List.all_cons, h3, List.isEmpty_nil, Bool.true_and]
+    simp only [judgeFrom, allGood, List.all_cons, judgeStep_of_exact h3, List.isEmpty_nil, Bool.true_and]
     exact i3
 
 /-- … and every remote limiter ever observed is within any bound `G` of all the schemas' global limits -/
